@@ -40,6 +40,7 @@ type Contract struct {
 	Kind     string // func | extern | iface
 	Requires []Clause
 	Ensures  []Clause
+	Exits    []Clause
 	Modifies []string
 	HasMod   bool
 	Loops    map[int]*LoopSpec
@@ -266,6 +267,15 @@ func (c *Contract) addClause(kw, rest, path string, line int) error {
 			cl.Label = fmt.Sprintf("e%d", len(c.Ensures)+1)
 		}
 		c.Ensures = append(c.Ensures, cl)
+	case "exit":
+		cl, err := mkClause(rest, path, line, true)
+		if err != nil {
+			return err
+		}
+		if cl.Label == "" {
+			cl.Label = fmt.Sprintf("x%d", len(c.Exits)+1)
+		}
+		c.Exits = append(c.Exits, cl)
 	case "modifies":
 		c.HasMod = true
 		for _, m := range strings.Fields(strings.ReplaceAll(rest, ",", " ")) {
